@@ -6,6 +6,9 @@
 (*   [H, root, H2, root2, H3, d1, d2, excw, excr, excw2, excr2]             *)
 (* H  = projection of the live graph, H2 = projection of the re-read one,   *)
 (* d1 / d2 = first / second written dictionary (as JSON values).           *)
+(* Dictionary path, stages before the last: used, Hb, Ha, H4, exc4 - the   *)
+(* live graph before / after the re-read graph was restructured further,   *)
+(* and the projection of d1 read once more after that.                     *)
 (***************************************************************************)
 EXTENDS Graph, Json, IOUtils
 
@@ -46,6 +49,12 @@ Verdict(c) ==
               [] x = "RereadParents" -> RereadParents(c)}
        \cup (IF c.excw2 # "" THEN {"SecondWriteRaises"} ELSE IF c.d1 # c.d2 THEN {"SecondWriteDiffers"}
              ELSE IF c.excr2 # "" THEN {"SecondReadRaises"} ELSE IF c.H3 # c.H2 THEN {"SecondReadDiffers"} ELSE {})
+       \* history write - read - USE the re-read graph (the rest of the pipeline runs on it) - read the same dictionary again:
+       \* the dictionary still reads as the graph it was written from, and that graph (Hb before / Ha after the use) has not moved
+       \cup (IF "used" \in DOMAIN c /\ c.used
+             THEN (IF c.exc4 # "" THEN {"ReadAfterUseRaises"} ELSE IF c.H4 # c.H2 THEN {"DictionaryChangedByUse"} ELSE {})
+                  \cup (IF c.Ha # c.Hb THEN {"WrittenGraphChangedByUse"} ELSE {})
+             ELSE {})
 
 Init == /\ tid \in 1..Len(Cases)
         /\ bad = Verdict(Cases[tid])
